@@ -326,6 +326,9 @@ def brev(s):
         regb(s)
         FACTS.add(blen(t) == blen(s), "rev-len")
         FACTS.add(rev(t) == s, "rev-invol")
+        for (tt, b) in FACTS.items("litval"):
+            if tt.eq(s):
+                FACTS.add(t == lit_bytes(b[::-1]), "rev-lit")
         regb(t)
         for (s2,) in FACTS.items("rev"):
             if s2 is not s:
